@@ -323,6 +323,11 @@ func RunC02(t *Trace, st *Stats) *Violation {
 	if ms.Image.NullPad > 0 {
 		opts.ZeroEOF = true
 	}
+	for _, b := range ms.Image.Blocks {
+		if b.Size > 8<<20-128 {
+			opts.MaxSection = 32 << 20 // the caller raised the limit to read its large blocks
+		}
+	}
 	if !ms.All {
 		st.Evals++
 		m := Mut{Kind: "none"}
@@ -347,7 +352,53 @@ func RunC02(t *Trace, st *Stats) *Violation {
 	big := n > 20000
 	long := !big && n > 3000
 	huge := n > 1<<20
-	if huge {
+	enormous := n > 6<<20
+	manySec := len(l.Payload.Sections) > 500
+	if manySec {
+		// more sections than any batch size a loader uses (1000): a few cuts and flips are enough, the
+		// point of the class is the valid image itself and cuts that leave more than a batch behind
+		st.Probe("c02:many-sections-image")
+		cuts := map[int64]bool{}
+		for o := int64(4096); o < n; o += 4096 {
+			cuts[o] = true
+			cuts[o+1] = true
+		}
+		secs := l.Payload.Sections
+		for _, i := range []int{0, 1, 999, 1000, 1001, len(secs) - 2, len(secs) - 1} {
+			if i >= 0 && i < len(secs) {
+				for _, d := range []int64{-1, 0, 1, int64(secs[i].LenSize)} {
+					if o := l.DataOffset + secs[i].Off + d; o > 0 && o < n {
+						cuts[o] = true
+					}
+				}
+			}
+		}
+		var cl []int64
+		for o := range cuts {
+			cl = append(cl, o)
+		}
+		sort.Slice(cl, func(i, j int) bool { return cl[i] < cl[j] })
+		for _, o := range cl {
+			muts = append(muts, Mut{Kind: "trunc", Off: o})
+		}
+		for k := 0; k < 24; k++ {
+			muts = append(muts, Mut{Kind: "flip", Off: int64(r.Intn(int(n))), Bit: r.Intn(8)})
+		}
+	} else if enormous {
+		// a section beyond the default 8 MiB section limit, read with the limit raised: cut where a reader
+		// that grows its buffer in large steps would be (multiples of 4 MiB of the section body), +-1
+		st.Probe("c02:enormous-section-image")
+		for _, sec := range l.Payload.Sections {
+			body := l.DataOffset + sec.Off + int64(sec.LenSize)
+			for k := int64(1); k<<22 < int64(sec.CidLen+sec.DataLen); k++ {
+				for _, d := range []int64{-1, 0, 1} {
+					muts = append(muts, Mut{Kind: "trunc", Off: body + k<<22 + d})
+				}
+			}
+			muts = append(muts, Mut{Kind: "trunc", Off: body + 1}, Mut{Kind: "trunc", Off: body + int64(sec.CidLen)})
+		}
+		muts = append(muts, Mut{Kind: "trunc", Off: n - 1}, Mut{Kind: "flip", Off: n - 5, Bit: 3})
+	} else if huge {
 		// a section of several MiB: cut at multiples of 256 KiB counted from the start of the file, of
 		// each section body and of its block data, +-1 (the step sizes a reader that grows its buffer
 		// in chunks would use), plus a few bytes around the structure
@@ -538,6 +589,9 @@ func suppliedIndexFor(l *Layout, opts ReadOpts) index.Index {
 
 // applicableReader: the CARv1-only readers are run on CARv1 images only.
 func applicableReader(l *Layout, reader string, opts ReadOpts) bool {
+	if reader == "v1load" && opts.MaxSection > 8<<20 {
+		return false // the internal loader has no option for the section limit
+	}
 	switch reader {
 	case "allkeys":
 		return scanSuppliedIndex != nil
@@ -580,6 +634,21 @@ func GenC02(seed uint64, run int) *Trace {
 			spec.Roots = []BlkSpec{{Kind: "raw", Seed: 1, Size: 3}}
 		}
 		spec.NullPad = 0
+	} else if run%60 == 0 {
+		// (rare, expensive classes are scheduled by run number rather than drawn, so that every batch of 60
+		// runs has them whatever the seed)
+		// one section beyond the default section size limit (8 MiB), to be read with the limit raised
+		spec.Blocks = []BlkSpec{{Kind: "raw", Seed: 42, Size: 8<<20 + 4096 + 9}}
+		spec.Roots = []BlkSpec{{Kind: "raw", Seed: 1, Size: 3}}
+		spec.NullPad, spec.IndexPad, spec.DataPad = 0, 0, 0
+	} else if run%60 == 1 {
+		// more sections than the batches loaders work in (1000)
+		spec.Blocks = spec.Blocks[:0]
+		for i := 0; i < 1100; i++ {
+			spec.Blocks = append(spec.Blocks, BlkSpec{Kind: "raw", Seed: uint64(5000 + i), Size: i % 3})
+		}
+		spec.Roots = []BlkSpec{{Kind: "raw", Seed: 5000, Size: 0}}
+		spec.V2, spec.NullPad = r.Chance(1, 3), 0
 	} else if r.Chance(1, 60) {
 		// one section of a few MiB: beyond the chunk sizes a reader that does not trust the declared
 		// length would grow its buffer in
